@@ -354,6 +354,24 @@ class CalleeMixin:
         if isinstance(a.info, dict):
             a.info["cur_orthog"] = (cx.Int("rec_a"), cx.Int("rec_b"))
 
+    def record_post_row(self, cx, a, obj):
+        """record_post with Sound stated for ONE arbitrary site k0 (skolem row: a constant fixed in `inputs`, never
+        constrained -- what is proved for it holds for every site) when the contract is proved against its body; the
+        quantified form when it is assumed at a call site.  The ground form keeps the obligations that really fail
+        decidable as `sat` (with a model) instead of `unknown`."""
+        k = cx.ghost.get("k0")
+        if cx.ghost.get(("applying", self.target)) or k is None:
+            return self.record_post(cx, a, obj)
+        rec = rec_of(a.info)
+        d = {"record-is-pair": is_pair(rec)}
+        if is_pair(rec):
+            f = cx.fields(obj)
+            lo, hi = Min(rec[0], rec[1]), Max(rec[0], rec[1])
+            d["record-sound-for-the-object-the-caller-keeps"] = And(
+                Implies(And(0 <= k, k < lo), sel(f["isL"], k)), Implies(And(hi < k, k < f["L"]), sel(f["isR"], k)))
+            d["record-in-range"] = And(0 <= lo, hi < f["L"])
+        return d
+
 
 @register
 class SingularValues2(CalleeMixin, More, SingularValues):
@@ -895,21 +913,6 @@ class Measure(CalleeMixin, More):
     def loops(self):
         return {0: Loop("for i in range(site + 1, L)", self.inv)}
 
-    def record_post_row(self, cx, a, obj):
-        """record_post with Sound stated for the arbitrary site k0 (body proof); quantified when used as a callee"""
-        k = cx.ghost.get("k0")
-        if cx.ghost.get(("applying", self.target)) or k is None:
-            return self.record_post(cx, a, obj)
-        rec = rec_of(a.info)
-        d = {"record-is-pair": is_pair(rec)}
-        if is_pair(rec):
-            f = cx.fields(obj)
-            lo, hi = Min(rec[0], rec[1]), Max(rec[0], rec[1])
-            d["record-sound-for-the-object-the-caller-keeps"] = And(
-                Implies(And(0 <= k, k < lo), sel(f["isL"], k)), Implies(And(hi < k, k < f["L"]), sel(f["isR"], k)))
-            d["record-in-range"] = And(0 <= lo, hi < f["L"])
-        return d
-
     # ---- callee use
     def call_reqs(self, cx, a):
         L = cx.fields(a.self)["L"]
@@ -1276,6 +1279,7 @@ class GateWithAutoSwap(CalleeMixin, More):
         where = mk_where(cx, case.wk, L, base="s")
         cx.assume(And(*[where[x] != where[y] for x in range(len(where)) for y in range(x)]))
         cx.ghost[("rec_in", self.target)] = rec_of(info)
+        cx.ghost["k0"] = cx.Int("k0")
         return dict(self=mps, G=cx.Opaque("G"), where=where, info=info, swap_back=case.sb, inplace=case.inplace,
                     compress_opts={})
 
@@ -1313,7 +1317,7 @@ class GateWithAutoSwap(CalleeMixin, More):
              "length": cx.fields(r)["L"] == cx.pre(a.self)["L"]}
         if not a.inplace:
             d["receiver-untouched"] = untouched(cx, a.self)
-        d.update(self.record_post(cx, a, r))
+        d.update(self.record_post_row(cx, a, r))
         rec = rec_of(a.info)
         if is_pair(rec):
             i, j = a.where
@@ -1494,7 +1498,7 @@ class SubmpoBase(CalleeMixin, More):
                 d["record-sound-if-the-region-lies-inside-it"] = Implies(And(lo <= si, sf <= hi), Sound(cx, (lo, hi), r))
             d["operator-left-pending"] = r.oid in self.pending(cx)
             return d
-        d.update(self.record_post(cx, a, r))
+        d.update(self.record_post_row(cx, a, r))
         if is_pair(rec):
             c = sf if self.sweep_reverse(a) else si
             d["record-is-the-first-site-of-the-region-(last-if-sweep_reverse)"] = And(rec[0] == c, rec[1] == c)
@@ -1532,6 +1536,7 @@ class GateWithSubmpo(SubmpoBase):
         sites = mk_where(cx, "triple" if case.wk == "triple" else "pair", L, base="s")
         opts = {} if case.sr == "absent" else {"sweep_reverse": case.sr}
         cx.ghost[("rec_in", self.target)] = rec_of(info)
+        cx.ghost["k0"] = cx.Int("k0")
         return dict(self=mps, submpo=SubMPO(sites), where=None if case.wk == "None" else sites, method=case.m,
                     transpose=False, info=info, inplace=case.inplace, inplace_mpo=False, compress_opts=opts)
 
@@ -1568,6 +1573,7 @@ class GateNonlocal(SubmpoBase):
             cx.assume(c)
         opts = {} if case.sr == "absent" else {"sweep_reverse": case.sr}
         cx.ghost[("rec_in", self.target)] = rec_of(info)
+        cx.ghost["k0"] = cx.Int("k0")
         return dict(self=mps, G=cx.Opaque("G"), where=mk_where(cx, "pair", L), dims=None if case.dk == "None" else cx.Opaque("dims"),
                     method=case.m, transpose=False, info=info, inplace=case.inplace, dagger=cx.Bool("dagger"),
                     compress_opts=opts)
